@@ -78,7 +78,8 @@ MANIFEST = {
     "text": "Proof: no panic outcome of the pipeline's models is reachable — disassembler (C04) and separator (C16) invariants; "
             "annotator: the regenerated Cancun table's pops/pushes/exit/jump flags agree with what annotate_one does for all 256 "
             "opcodes (kernel evaluation over regenerated data) hence every separator-shaped block is accepted (induction over "
-            "the block) while the u16 variable counter cannot overflow; ControlFlowGraph::new and refine_shallow never reach "
+            "the block) while the u16 variable counter cannot overflow — exactly: a block is accepted IFF it reaches at most 65535 entry-stack "
+            "slots (C15_annotate_exact / C15_annotate_refused; beyond that the counter overflows, finding D20); ControlFlowGraph::new and refine_shallow never reach "
             "their assert/unreachable!/unwrap sites for any solver; every symbol has a translation.",
     "note": "Trusted: Lean kernel; the models' panic sites are a transcription of the asserts/unwraps of annotated.rs, basic.rs, "
             "cfg.rs, sym.rs (inventory: tools/panic_ledger.txt, recomputed by etk-h dump-sites on every run), tied by the differential run (outcome class and initial graph) through "
